@@ -53,11 +53,11 @@ Qed.
 Theorem workload_nth (w t : nat) : (1 <= w)%nat ->
   let q := Z.of_nat t / Z.of_nat w in
   let r := Z.of_nat t mod Z.of_nat w in
-  length (workload w t) = S w /\
+  length (workload_list w t) = S w /\
   forall k, (k <= w)%nat ->
-    nth k (workload w t) 0 = Z.of_nat k * q + Z.max 0 (Z.of_nat k - (Z.of_nat w - r)).
+    nth k (workload_list w t) 0 = Z.of_nat k * q + Z.max 0 (Z.of_nat k - (Z.of_nat w - r)).
 Proof.
-  intros Hw q r. unfold workload. fold q r.
+  intros Hw q r. unfold workload_list. fold q r.
   assert (Hr : 0 <= r <= Z.of_nat w) by (unfold r; lia).
   pose proof (wl_rem_inv w q r Hr (Z.to_nat r) 0 (wl_base q 0 w)) as H.
   destruct H as [Hlen Hnth].
@@ -69,8 +69,8 @@ Proof.
 Qed.
 
 (** the clauses of the property, for every number of workers >= 1 and every number of tasks *)
-Theorem workload_spec (w t : nat) : (1 <= w)%nat ->
-  let l := workload w t in
+Theorem workload_list_spec (w t : nat) : (1 <= w)%nat ->
+  let l := workload_list w t in
   length l = S w /\ nth 0 l 0 = 0 /\ nth w l 0 = Z.of_nat t /\
   forall k, (k < w)%nat ->
     let d := nth (S k) l 0 - nth k l 0 in
@@ -82,5 +82,27 @@ Proof.
   assert (0 <= Z.of_nat t / Z.of_nat w) by (apply Z.div_pos; lia). lia.
 Qed.
 
-Example workload_example : workload 3 10 = [0; 3; 6; 10].
+(** Workload_Distribution returns (no exit) for every workers >= 1, with the full specification;
+    the q+1 differences sit on the last [tasks mod workers] workers *)
+Theorem workload_spec (w t : nat) : (1 <= w)%nat ->
+  exists l, workload w t = Ok l /\
+  length l = S w /\ nth 0 l 0 = 0 /\ nth w l 0 = Z.of_nat t /\
+  (forall k, (k <= w)%nat ->
+     nth k l 0 = Z.of_nat k * (Z.of_nat t / Z.of_nat w) + Z.max 0 (Z.of_nat k - (Z.of_nat w - Z.of_nat t mod Z.of_nat w))) /\
+  forall k, (k < w)%nat ->
+    let d := nth (S k) l 0 - nth k l 0 in
+    (d = Z.of_nat t / Z.of_nat w \/ d = Z.of_nat t / Z.of_nat w + 1) /\ 0 <= d.
+Proof.
+  intros Hw. exists (workload_list w t). split.
+  - unfold workload. destruct w; [lia|reflexivity].
+  - destruct (workload_list_spec w t Hw) as (H1 & H2 & H3 & H4).
+    destruct (workload_nth w t Hw) as [_ Hn].
+    repeat split; auto; apply H4; auto.
+Qed.
+
+(** zero workers: diagnostic and exit *)
+Theorem workload_zero (t : nat) : workload 0 t = Exit.
+Proof. reflexivity. Qed.
+
+Example workload_example : workload 3 10 = Ok [0; 3; 6; 10].
 Proof. reflexivity. Qed.
